@@ -222,23 +222,29 @@ func c10Subset(r *run.Run) {
 		maxLen = 5
 	}
 	r.Explore(explore.Config{Name: "C10.subset", Deadline: r.PartDeadline(0.9)},
-		fmt.Sprintf("6-glyph fonts (glyf with 6 component graphs incl. nested, forward and repeated references; simple CFF with 3 encodings incl. a multiply encoded glyph; CID-keyed with 2..3 font dicts) x 3 cmaps x GSUB {none, 1.1, 4.1, both, 3-level ligature chains in both lookup orders} x GPOS {none, 2.1} x ALL duplicate-free glyph lists starting with glyph 0 of length 1..%d in every order", maxLen),
+		fmt.Sprintf("6-glyph fonts (glyf with 6 component graphs incl. nested, forward and repeated references; simple CFF with 3 encodings incl. a multiply encoded glyph; CID-keyed with 2..3 font dicts) x 3 cmaps x GSUB {none, 1.1, 4.1, both, 3-level ligature chains in both lookup orders} x GPOS {none, 2.1} x ALL duplicate-free glyph lists starting with glyph 0 of length 1..%d in every order, and all six glyphs in four orders", maxLen),
 		func(c *explore.Ctx) {
 			f, desc := c10Font(c)
 			// glyph list
 			list := []glyph.ID{0}
 			used := map[glyph.ID]bool{0: true}
-			n := c.Choose(maxLen, "further glyphs")
-			for i := 0; i < n; i++ {
-				var avail []glyph.ID
-				for g := glyph.ID(1); g < c10N; g++ {
-					if !used[g] {
-						avail = append(avail, g)
+			n := c.Choose(maxLen+1, "further glyphs")
+			if n == maxLen {
+				// every glyph of the font, in four orders (nothing is removed, but everything may move)
+				list = [][]glyph.ID{{0, 1, 2, 3, 4, 5}, {0, 5, 4, 3, 2, 1}, {0, 2, 3, 4, 5, 1}, {0, 1, 2, 3, 5, 4}}[c.Choose(4, "order of all glyphs")]
+				n = len(list) - 1
+			} else {
+				for i := 0; i < n; i++ {
+					var avail []glyph.ID
+					for g := glyph.ID(1); g < c10N; g++ {
+						if !used[g] {
+							avail = append(avail, g)
+						}
 					}
+					g := avail[c.Choose(len(avail), "glyph")]
+					used[g] = true
+					list = append(list, g)
 				}
-				g := avail[c.Choose(len(avail), "glyph")]
-				used[g] = true
-				list = append(list, g)
 			}
 			c.Sample(func() any { return map[string]any{"font": desc, "glyphs": list} })
 			if n > 0 {
